@@ -462,6 +462,17 @@ def ob_native():
         for k in range(K):
             if (not (np.abs(S2[k] - S[k]).max() <= 1e-8 * max(1.0, np.abs(S[k]).max()))):
                 return {"not scale invariant": k}
+        # the same across orders of magnitude of the receive filters: the SINR is a ratio, no absolute level enters
+        if all(np.all(np.isfinite(np.asarray(S[k], dtype=float))) for k in range(K)):
+            for mag in (1e-9, 1e-12, 1e7):
+                U3 = np.empty(K, dtype=object)
+                for k in range(K):
+                    U3[k] = U[k] * mag
+                S3 = o.calc_SINR(F, U3, pe) if ext else o.calc_SINR(F, U3)
+                for k in range(K):
+                    if (not (np.abs(S3[k] - S[k]).max() <= 1e-8 * max(1.0, np.abs(S[k]).max()))):
+                        return {"SINR changes when every receive filter is multiplied by": mag, "user": k,
+                                "observed": [float(x) for x in S3[k]], "expected": [float(x) for x in S[k]]}
         for k in range(K):
             Q = o.calc_Q(k, F, pe) if ext else o.calc_Q(k, F)
             spec = sum((H[k, j] @ F[j]) @ (H[k, j] @ F[j]).conj().T for j in range(K) if j != k) if K > 1 else 0
